@@ -38,7 +38,7 @@ func maskedEqual(a, b []byte, off, n int) bool {
 func c01Codec(c *lab.Ctx) {
 	c.Rule("per codec: generated well-formed frames (lengths from {0,1,255..257,65535..65537,1MiB,random}, fixed fields at {0,1,max,random}, ids at wrap points); Decode/Encode identity, id patch, aliasing canary, header/body mutation + reference decode; distinct = (codec, kind, class/header/body length classes, oracle path)")
 	rng := c.Rand("codec")
-	perCodec := c.Pick(6000, 60000)
+	perCodec := c.Pick(20000, 60000)
 	base := variable.NewVariableContext(context.Background())
 	cm := stream.NewContextManager(base)
 	caseNo := 0
